@@ -131,6 +131,9 @@ class LocSection:
                 self.loclists += bytes([7]) + struct.pack("<QQ", e[1], e[2]); exp.append((e[1], e[2]))
             elif e[0] == "start_length":
                 self.loclists += bytes([8]) + struct.pack("<Q", e[1]) + uleb(e[2]); exp.append((e[1], e[1] + e[2]))
+            elif e[0] == "default":
+                # DW_LLE_default_location: applies wherever no other entry does; reported with the whole address space as its range
+                self.loclists += bytes([5]); exp.append((0, (1 << 64) - 1))
             self.loclists += uleb(len(ex)) + ex
         self.loclists += bytes([0])
         return off, exp
